@@ -150,3 +150,16 @@ Definition blob_gap2 : bytes := ([0; 0; 29; 100; 0] ++ repeat 0 26 ++ [0] ++ [1;
 Example gap2_table : on_blob blob_gap2 (fun p => (map fst (t_idx (predecode p)), kreal p 25, t_blocks (predecode p)))
   = Some ([28; 25; 0], false, [(28, (2, 3)%nat); (0, (0, 2)%nat)]).
 Proof. vm_compute. reflexivity. Qed.
+
+(* an unscanned, non-terminator address visited three times by a loop: fallthrough (skip clamped) -> 25: add_imm_64 r1,r1,1
+   (unmarked) -> 28: branch_lt_u_imm r1, 3 -> 0 ; 32: trap.  Ten instructions, r1 = 3; decoding on demand is stateless,
+   so the 2nd and 3rd visit behave like the first (corpus/C02: the Go engines return exactly this) *)
+Definition blob_gap_loop : bytes :=
+  ([0; 1; 33; 1] ++ repeat 0 24 ++ [149; 17; 1; 83; 17; 3; 228; 0] ++ [1; 0; 0; 16; 1])%N.
+Example gap_loop_both :
+  on_blob blob_gap_loop (fun p =>
+    (match run_blocks fixed 100 p 0 (st0 1000) with Some (e, pc, s) => Some (e, pc, gas s, nth 1 (regs s) 0) | None => None end,
+     match run_steps fixed 100 p 0 (st0 1000) with Some (e, pc, s) => Some (e, pc, gas s, nth 1 (regs s) 0) | None => None end,
+     map fst (t_idx (predecode p))))
+  = Some (Some (Panic, 0, 990, 3), Some (Panic, 0, 990, 3), [32; 28; 0]).
+Proof. vm_compute. reflexivity. Qed.
